@@ -13,14 +13,20 @@ RULE = ('lines from a statement grammar (every keyword of the dialect table, exp
         'multi-line programs entered in random order with overwrites and deletions and LISTed in a Session, junk byte lines')
 EXPLANATION = ('theorems (PcbV.Props.C17): keyword tables are bijections per dialect and recognition is case-blind; token '
                'class and list/re-read round trip of every integer literal shape (constants, byte, int, &H, &O, jump '
-               'numbers); round trip tokenise(list(t)) = t for item sequences of the grammar fragment, parametric in the '
-               'float conversion pair; correspondence: Tokeniser.tokenise_line and Lister.detokenise_line of the three '
-               'dialects against the Lean models on all generated lines; oracle: independent token walker + exact '
-               'Fraction values of MBF payloads, text identity list(tokenise(canon)) = canon, bytewise re-entry, '
-               'case/spelling invariance, Session LIST histories, table bijection on the real dicts, no host exception')
+               'numbers); lexical scan of point/exponent/suffix literals; round trip tokenise(list(t)) = t '
+               '(roundtrip_statement / roundtrip_line / roundtrip_line_zero) over the item grammar: blanks incl. TAB, '
+               'strings with arbitrary bytes (closed or open), separators, operators, all keywords (:ELSE, WHILE+, two-byte), '
+               'names, raw digits, number literals, jump-number lists and ranges, DATA, REM / \' comments; respelled text '
+               '(case, ?, GO TO) normalises to the same tokens; counterexample theorems for what does not round-trip '
+               '(lead bytes in strings, LF, text-only changes); parametric in the float conversion pair; correspondence: '
+               'Tokeniser.tokenise_line and Lister.detokenise_line of the three dialects against the Lean models on all '
+               'generated lines; oracle: independent token walker + exact Fraction values of MBF payloads, text identity '
+               'list(tokenise(canon)) = canon, bytewise re-entry, case/spelling invariance, Session LIST histories, table '
+               'bijection on the real dicts, no host exception')
 TRUSTED_BASE = ['models PcbV.Model.Tokenise / PcbV.Model.Lister are hand transcriptions of tokeniser.py, lister.py and the '
                 'codestream.py readers; float text<->MBF conversion is a parameter of the models (property C07), '
-                'instantiated in the correspondence run by the real Values.from_repr / to_str']
+                'instantiated in the correspondence run by the real Values.from_repr / to_str; the round-trip theorems need '
+                'of it only that the pair inverts on the literal (the lexical scan is proved)']
 ASSUMPTIONS = ['strings, comments and DATA of the grammar hold no control characters 00..1F (the lister prints number-token '
                'lead bytes as numbers even inside them, documented GW-BASIC behaviour)']
 
